@@ -231,8 +231,16 @@ pub fn readback<D: GarnishData<Error = DataError, Symbol = u64, Byte = u8, Char 
     d: &D,
     addr: usize,
 ) -> Result<V, String> {
+    RB_NODES.with(|c| c.set(0));
     rb(d, addr, 0)
 }
+
+thread_local! {
+    /// nodes visited by the current read-back: a value that shares sub-values (a DAG) is a tree of
+    /// exponential size when walked, so every read-back is cut off at RB_MAX_NODES
+    static RB_NODES: std::cell::Cell<u64> = std::cell::Cell::new(0);
+}
+const RB_MAX_NODES: u64 = 200_000;
 
 fn rb<D: GarnishData<Error = DataError, Symbol = u64, Byte = u8, Char = char, Number = SimpleNumber, Size = usize>>(
     d: &D,
@@ -241,6 +249,13 @@ fn rb<D: GarnishData<Error = DataError, Symbol = u64, Byte = u8, Char = char, Nu
 ) -> Result<V, String> {
     if depth > RB_DEPTH {
         return Err(format!("readback depth limit at addr {}", addr));
+    }
+    let seen = RB_NODES.with(|c| {
+        c.set(c.get() + 1);
+        c.get()
+    });
+    if seen > RB_MAX_NODES {
+        return Err(format!("readback size limit at addr {}", addr));
     }
     let e = |what: &str, err: DataError| format!("{}({}) failed: {}", what, addr, err);
     let t = d.get_data_type(addr).map_err(|x| e("get_data_type", x))?;
